@@ -15,7 +15,7 @@ META = {
         "quick": "4 shapes (plain scenarios; rule; outline with two examples blocks and a parametrised tag; rule+outline), candidate tags {a, b, ab} "
                  "at feature/rule/scenario/outline/examples level with symbolic presence (one z3 Boolean per element x tag), 16 tag expressions "
                  "(v2 incl. negation/wildcards, v1 lists, auto-detect), outcomes {pass, fail}, show_skipped and dry-run symbolic",
-        "thorough": "7 shapes, 36 expressions, outcomes {pass, fail, exception, skip-scenario}",
+        "thorough": "9 shapes (the three larger ones without the four three-tag expressions), 28 expressions, outcomes {pass, fail, exception, skip-scenario}",
     },
     "outside": ["tag names outside the candidate set", "name/location selection (C10)"],
     "assumptions": ["tags are written on every element as provenance-coded names 't__element'; the wrapper around the REAL tag expression maps them to "
@@ -112,6 +112,8 @@ def jobs(tier, seed):
             names = ex[3] if len(ex) > 3 else ["a", "b", "ab"]
             if sname in ("outline-untagged", "stepless") and tier == "quick" and i not in (0, 1, 3, 6, 11, 13):
                 continue
+            if sname in ("2rules", "2feat", "outline2") and i in (5, 15, 24, 27):
+                continue        # three-tag expressions on the larger shapes exceed the 600 s job budget (stated bound)
             js.append(Job("sel.%s.e%02d" % (sname, i), "props.c09:h_select",
                           {"shapes": sh, "opts": {"ptags": names, "tag_universe": names,
                                                   "tag_expr": {"text": text, "tree": tree, "protocol": proto},
